@@ -4,7 +4,8 @@ from vlib.checks import maps
 
 KF = {"hash": "KF-C18-1", "trie": "KF-C18-2"}
 # recorded findings per implementation: their trigger steps are left out (harness --kf-skip) only while one is still "known"
-KFS = {"hash": {"KF-C18-1"}, "skip": {"KF-C18-3"}, "trie": {"KF-C18-2", "KF-C18-4"}}
+KFS = {"hash": {"KF-C18-1": "--kf-skip-ghost"}, "skip": {"KF-C18-3": "--kf-skip-ghost"},
+       "trie": {"KF-C18-2": "--kf-skip-ghost", "KF-C18-4": "--kf-skip-split"}}
 
 
 def closing(keys, maxiter):
@@ -38,15 +39,18 @@ def run(ctx):
                    ["IterNext", 1], ["IterNext", 1], ["IterNext", 1]] + closing([1, 2, 3, 5, 7], 2))
         # the history of the repaired KF-C18-1 (an entry removed under a parked iterator is gone at once); on the trie it
         # falls under KF-C18-2 and is left to that finding's reproducer
-        if impl != "trie":
+        if True:
             hs.append([["Put", 1, 1], ["IterCreate", 1, 0], ["IterNext", 1], ["Rm", 1], ["Get", 1], ["Rm", 1], ["Count"], ["Put", 1, 2], ["Get", 1],
                        ["IterCreate", 2, 0], ["IterNext", 2], ["IterNext", 2], ["IterNext", 1]] + closing([1], 2))
+        # the history of the repaired KF-C18-4 (trie: a put splits the node an iterator is parked on)
+        hs.append([["Put", 3, 1], ["IterCreate", 2, 3 if impl == "trie" else 0], ["IterNext", 2], ["Put", 2, 1], ["IterFree", 2], ["Get", 2], ["Get", 3],
+                   ["IterCreate", 1, 0], ["IterNext", 1], ["Put", 4, 1], ["Put", 1, 1], ["IterNext", 1], ["IterNext", 1]] + closing([1, 2, 3, 4], 2))
         if impl == "skip":
             ctx.sample({"impl": impl, "history": maps.to_lines(hs[nx])})
         ctx.log("%s: %d histories (%d exhaustive)" % (impl, len(hs), nx))
         # generated behaviours, with the steps that fall under the recorded finding left out (hashtable, trie)
         known = {k["id"] for k in core.load_known() if k.get("status") == "known"}
-        skip = ["--kf-skip"] if known & KFS[impl] else []
+        skip = [flag for kfid, flag in KFS[impl].items() if kfid in known]
         ctx.exec_validate(exe, hs, maps.to_lines, "MapTrace.tla", maps.trace_cfg(ctx, impl),
                           harness_args=[impl] + skip + ["--seed", str(ctx.seed)], label="c18-" + impl)
     # recorded findings: directed reproducers (run without --kf-skip)
